@@ -54,7 +54,14 @@ type c05Cfg struct {
 	Nodeclient bool `json:"nodeclient"` // the proposal provider implements NodeClientProvider
 	Auctioneer bool `json:"auctioneer"`
 	UnblindAll bool `json:"unblindAll"`
+	// what stands behind the auctioneer interface: "opaque" (or empty: the scripted c05Auctioneer), or the real
+	// block relay service with the "best" / "deadline" builder bid strategy and the relays Conf configured
+	// (zz_verif_c05_wired_test.go)
+	Strategy string `json:"strategy"`
+	Conf     []int  `json:"conf"`
 }
+
+func (c c05Cfg) wired() bool { return c.Strategy == "best" || c.Strategy == "deadline" }
 
 // c05History is a scenario: one service instance, the duty objects it is handed (in the order in
 // which they are made) and the schedule of the calls.  Without a schedule every duty is prepared and
@@ -96,6 +103,10 @@ type c05Scenario struct {
 		All       []bool `json:"all"`
 		Providers []bool `json:"providers"`
 	} `json:"auction"`
+	// the auction as a component (wired histories): what the block relay's account lookup answers, and what each
+	// configured relay does with a request for a bid (bid | nobid | err | silent)
+	Aacct    string   `json:"aacct"`
+	Bids     []string `json:"bids"`
 	Proposal struct {
 		Out     string `json:"out"`
 		Version string `json:"version"`
@@ -270,6 +281,12 @@ type c05Run struct {
 	cancelled bool
 	crash     string
 
+	// the auction as a component (wired histories)
+	inAuction   bool        // the proposer is inside AuctionBlock
+	auctionOpen bool        // ... and the block relay has looked the account up: requests for bids are recorded
+	bidAttempts map[int]int // requests for a bid per relay
+	candidates  int         // relays the last auction of this duty object returned as AllProviders
+
 	// the schedule's side
 	inCall   bool          // a call (Prepare or Propose) is running
 	prepared bool          // Prepare has returned
@@ -287,7 +304,7 @@ type c05Run struct {
 func c05NewRun(hist *c05Hist, sc *c05Scenario) *c05Run {
 	return &c05Run{
 		sc: sc, hist: hist, roots: map[phase0.Root]c05RootTag{}, attempts: map[int]int{}, finished: map[int]bool{},
-		delivers: map[int]bool{}, freeCh: make(chan struct{}), gateCh: make(chan struct{}), relCh: make(chan struct{}),
+		delivers: map[int]bool{}, bidAttempts: map[int]int{}, freeCh: make(chan struct{}), gateCh: make(chan struct{}), relCh: make(chan struct{}),
 	}
 }
 
@@ -553,6 +570,12 @@ func (p *c05ProposalProvider) Proposal(ctx context.Context, opts *api.ProposalOp
 		run.emitLocked(ev)
 		return nil, errors.New("scripted proposal failure")
 	}
+	blinded := sc.Proposal.Blinded
+	if blinded && sc.Cfg.wired() && run.candidates == 0 {
+		// Env_BlindedNeedsAuction: a beacon node only hands out a blinded proposal when the auction - the real one
+		// here - produced results that name a relay; what is recorded is what was handed out
+		blinded = false
+	}
 	id := len(run.obtained) + 1
 	seed := c05Seed{
 		slot:     uint64(int64(sc.Slot) + int64(sc.Proposal.Dslot)),
@@ -563,9 +586,9 @@ func (p *c05ProposalProvider) Proposal(ctx context.Context, opts *api.ProposalOp
 		graffiti: opts.Graffiti,
 	}
 	o := &c05Obtained{
-		id: id, seed: seed, version: sc.Proposal.Version, blinded: sc.Proposal.Blinded,
-		obtained: c05BuildProposal(sc.Proposal.Version, sc.Proposal.Blinded, seed),
-		pristine: c05BuildProposal(sc.Proposal.Version, sc.Proposal.Blinded, seed),
+		id: id, seed: seed, version: sc.Proposal.Version, blinded: blinded,
+		obtained: c05BuildProposal(sc.Proposal.Version, blinded, seed),
+		pristine: c05BuildProposal(sc.Proposal.Version, blinded, seed),
 	}
 	// The oracle for the roots is the library's accessor on the obtained object.
 	parent, err1 := o.obtained.ParentRoot()
@@ -580,7 +603,7 @@ func (p *c05ProposalProvider) Proposal(ctx context.Context, opts *api.ProposalOp
 	run.roots[body] = c05RootTag{id, "body"}
 	run.obtained = append(run.obtained, o)
 	ev["out"] = "ok"
-	ev["p"] = verifsupport.Ev{"version": sc.Proposal.Version, "blinded": sc.Proposal.Blinded, "slot": uint64(slot), "id": id}
+	ev["p"] = verifsupport.Ev{"version": sc.Proposal.Version, "blinded": blinded, "slot": uint64(slot), "id": id}
 	run.emitLocked(ev)
 	return &api.Response[*api.VersionedProposal]{Data: o.obtained, Metadata: map[string]any{}}, nil
 }
@@ -978,7 +1001,7 @@ type c05Sched struct {
 	s          *Service
 	h          *c05History
 	hist       *c05Hist
-	ct         *verifsupport.ChainTime
+	ct         *c05ChainTime
 	fallback   time.Duration
 	patience   time.Duration
 	autoCancel bool
@@ -1039,9 +1062,13 @@ func (x *c05Sched) prepare(run *c05Run) {
 	run.h = x.hist.made
 	run.duty = beaconblockproposer.NewDuty(phase0.Slot(sc.Slot), phase0.ValidatorIndex(sc.V))
 	if run.h == 1 {
+		strategy, conf := "opaque", []int{}
+		if x.h.Cfg.wired() {
+			strategy, conf = x.h.Cfg.Strategy, append(conf, x.h.Cfg.Conf...)
+		}
 		run.emitLocked(verifsupport.Ev{"ev": "Reset", "slot": sc.Slot, "v": sc.V, "cfg": verifsupport.Ev{
 			"graffiti": x.h.Cfg.Graffiti, "nodeclient": x.h.Cfg.Nodeclient, "auctioneer": x.h.Cfg.Auctioneer,
-			"unblindAll": x.h.Cfg.UnblindAll,
+			"unblindAll": x.h.Cfg.UnblindAll, "strategy": strategy, "conf": conf,
 		}})
 	} else {
 		run.emitLocked(verifsupport.Ev{"ev": "NewDuty", "slot": sc.Slot, "v": sc.V})
@@ -1069,6 +1096,11 @@ func (x *c05Sched) propose(run *c05Run) {
 	sc := run.sc
 	if x.ct.CurrentSlot() < phase0.Slot(sc.Slot) {
 		x.ct.SetSlot(sc.Slot)
+	}
+	if x.h.Cfg.wired() {
+		// the slot of the duty starts now (the scheduler job runs at the start of the slot): the deadline strategy
+		// counts its deadline from here
+		x.ct.setStart(phase0.Slot(sc.Slot), time.Now())
 	}
 	// The controller only schedules Propose after a successful Prepare; the driver calls it
 	// regardless, so that validateDuty is exercised too.
@@ -1099,6 +1131,10 @@ func (x *c05Sched) propose(run *c05Run) {
 		ret := verifsupport.Ev{"ev": "Ret"}
 		if run.crash != "" {
 			ret["crash"] = run.crash
+			if x.h.Cfg.wired() {
+				// the goroutine of Propose panicked (the scheduler has no recover(): Vouch would be gone)
+				ret["ev"] = "Crash"
+			}
 		}
 		run.emitLocked(ret)
 		run.closed = true
@@ -1134,7 +1170,7 @@ func c05RunHistory(t *testing.T, h *c05History, fallback time.Duration, grace ti
 	hist := &c05Hist{sc: h.Sc, note: make(chan struct{}, 1)}
 	hist.orphan = c05NewRun(hist, &c05Scenario{Sc: h.Sc, Salt: h.Salt, Cfg: h.Cfg, Accounts: "ok", Randao: "ok", Sign: "ok", Submit: "ok"})
 	ctx := context.Background()
-	ct := verifsupport.NewChainTime(32, 12*time.Second)
+	ct := &c05ChainTime{ChainTime: verifsupport.NewChainTime(32, 12*time.Second)}
 	if len(h.Duties) > 0 {
 		ct.SetSlot(h.Duties[0].Slot)
 	}
@@ -1160,7 +1196,14 @@ func c05RunHistory(t *testing.T, h *c05History, fallback time.Duration, grace ti
 	if h.Cfg.Graffiti {
 		params = append(params, WithGraffitiProvider(&c05GraffitiProvider{h: hist}))
 	}
-	if h.Cfg.Auctioneer {
+	if h.Cfg.wired() {
+		// the real block relay service and builder bid strategy behind the auctioneer interface, as in main.go
+		wired := c05Wire(t, hist, h, ct)
+		defer wired.cancel()
+		params = append(params,
+			WithBlockAuctioneer(wired.auctioneer),
+			WithExecutionChainHeadProvider(c05Head{}))
+	} else if h.Cfg.Auctioneer {
 		params = append(params,
 			WithBlockAuctioneer(&c05Auctioneer{h: hist}),
 			WithExecutionChainHeadProvider(c05Head{}))
